@@ -341,6 +341,14 @@ theorem C15_link_concurrent (c : Cfg Sh Th) (s : Sh) (ts' : List Th) (hstart : S
   · intro h; exact huniq v hv h
   · intro h; rw [h]; exact hk
 
+/-- The registry of the re-link model — the one the `it` differential run executes — is the registry
+of `C15_weak_iteration` with one more ghost component. -/
+theorem C15_registry_projection (r : Reg) (x : Nat) :
+    proj (attach r) = Hive.EventsIter.attach (proj r) ∧
+    proj (delete r x) = Hive.EventsIter.delete (proj r) x ∧
+    Hive.EventsIter.next (proj r) x = next r x :=
+  ⟨proj_attach r, proj_delete r x, proj_next r x⟩
+
 /-- Non-vacuity: `S` is linked to `X` by hook 2; a trigger runs completely (fires `S` once); then
 `S` re-links to `X` (hook 2 removed, hook 4 attached) while a second trigger stands on hook 1; that
 trigger reaches the new link hook 4 (attached after it began), the old one not (removed before it
